@@ -244,6 +244,7 @@ impl ActorCell {
         if let Some(r_name) = &name {
             crate::registry::register(r_name.clone(), cell.clone())?;
         }
+        verif_point!("cell_new:between_name_and_pid");
 
         #[cfg(feature = "cluster")]
         if let Err(err) = crate::registry::pid_registry::register_pid(cell.get_id(), cell.clone()) {
@@ -332,6 +333,7 @@ impl ActorCell {
     /// Returns the status observed immediately before the update.
     pub(crate) fn set_status(&self, status: ActorStatus) -> ActorStatus {
         let previous_status = self.inner.set_status(status);
+        verif_point!("set_status:after_publish");
 
         // The actor is shut down — only run cleanup once, on the first transition
         // to Stopping. Publish the new status before cleanup so concurrent PG
@@ -343,14 +345,18 @@ impl ActorCell {
                 crate::registry::pid_registry::demonitor(self.get_id());
                 // unregistry from the PID registry
                 crate::registry::pid_registry::unregister_pid(self.get_id());
+                verif_point!("set_status:after_pid_unregister");
             }
             // If it's enrolled in the registry, remove it
             if let Some(name) = self.get_name() {
                 crate::registry::unregister(name);
             }
+            verif_point!("set_status:after_name_unregister");
             // Leave all + stop monitoring pg groups (if any)
             crate::pg::demonitor_all(self.get_id());
+            verif_point!("set_status:after_demonitor_all");
             crate::pg::leave_all(self.get_id());
+            verif_point!("set_status:after_leave_all");
         }
 
         // Fix for #254. We should only notify the stop listener AFTER post_stop
@@ -367,12 +373,14 @@ impl ActorCell {
     pub(crate) fn terminate(&self) {
         let mut pending = vec![self.clone()];
         while let Some(actor) = pending.pop() {
+            verif_point!("terminate:iteration");
             // We don't need to notify of exit if we're already stopped. A draining actor is still
             // working through its mailbox and a stopping one may still be inside `post_stop`:
             // both have to be killed, or they keep running beneath an actor that is gone.
             if actor.get_status() < ActorStatus::Stopped {
                 actor.kill();
             }
+            verif_point!("terminate:between_kill_and_take_children");
 
             let children = super::supervision::SupervisionTree::take_children(&actor);
             // Reverse the snapshot so the worklist retains the previous depth-first order.
